@@ -639,7 +639,7 @@ META = {
              'site/coordinates within the radius (radius predicates enumerated) and UMIs within the allowed Hamming distance (0 -> identical only); '
              'the ejection predicate and span maintenance cannot split a molecule (C07-R4/R5); site formulas are clip independent (C09-R1/R4). Does NOT '
              'decide that the partition equals a simulated ground truth.'),
-    'technique': 'static analysis: path enumeration over abstract ranks, comparison-predicate enumeration of radius/UMI tests, component-set checks of match hashes, imported symbolic site analysis; small-scope abstract execution of hamming_distance (all word pairs over A/C/N) and has_valid_span (spans with None / 0 / positive entries)',
+    'technique': 'static analysis: path enumeration over abstract ranks, comparison-predicate enumeration of radius/UMI tests, component-set checks of match hashes, imported symbolic site analysis; small-scope abstract execution of hamming_distance (all word pairs over A/C/N) and has_valid_span (spans with None / 0 / positive entries), of update_span on model mate pairs; option routing between the fragment and molecule constructor families',
     'design_ref': 'DESIGN.md section 5, C06',
 }
 
